@@ -59,6 +59,7 @@ struct FaultBox
   int malloc_straddle = 0; // next allocation returns a block touching the end
   int create_fail = 0; // next impl_create_sandbox returns false
   int grant_refuse = 0; // next grant/deny says success=false
+  bool refuse_echoes_pointer = false; // ... and hands back the caller's pointer unchanged (the result is meaningless without success)
   int lookup_fail = 0; // next symbol lookup fails (abort)
   void clear() { *this = FaultBox(); }
 };
@@ -99,7 +100,7 @@ inline const LiveRegion* region_of(const void* p)
   return nullptr;
 }
 
-inline Region region_alloc(size_t size, bool mmu, bool guard_after)
+inline Region region_alloc(size_t size, bool mmu, bool guard_after, int subpage_slot = 0)
 {
   Region r;
   r.size = size;
@@ -115,6 +116,8 @@ inline Region region_alloc(size_t size, bool mmu, bool guard_after)
   memset(r.arena, CANARY, r.arena_len);
   uintptr_t a = (uintptr_t)r.arena + pg;
   a = (a + size - 1) & ~(uintptr_t)(size - 1);
+  if (size < pg) // a region smaller than a page: both of its ends can lie inside a page, application bytes (canaries) on the same page
+    a += (size_t)((unsigned)subpage_slot % (pg / size)) * size;
   r.base = (uint8_t*)a;
   if (mmu) {
     r.fd = memfd_create("simregion", 0);
@@ -159,7 +162,7 @@ inline void graveyard_release()
 // Regions released by destroyed sandboxes when SimConfig::reuse is on (shared by all threads).
 inline std::mutex g_pool_mutex;
 inline std::vector<Region> g_pool;
-inline Region region_obtain(size_t size, bool mmu, bool guard_after, bool reuse)
+inline Region region_obtain(size_t size, bool mmu, bool guard_after, bool reuse, int subpage_slot = 0)
 {
   if (reuse) {
     std::lock_guard<std::mutex> lk(g_pool_mutex);
@@ -171,7 +174,7 @@ inline Region region_obtain(size_t size, bool mmu, bool guard_after, bool reuse)
         return r;
       }
   }
-  return region_alloc(size, mmu, guard_after);
+  return region_alloc(size, mmu, guard_after, subpage_slot);
 }
 inline void region_retire(Region& r, bool reuse)
 {
@@ -229,6 +232,7 @@ struct SimConfig
   int slots = 8; // callback entries per instance
   bool reuse = false; // regions of destroyed sandboxes are handed to later creates (same addresses come back)
   bool deny_in_place = false; // impl_deny_access succeeds and hands back the in-sandbox pointer (as noop does)
+  int subpage_slot = 0; // regions smaller than a page: which size-aligned slot of the page they occupy
 };
 
 template<typename S>
@@ -247,7 +251,18 @@ public:
   using T_LongLongType = int64_t;
   using T_LongType = int32_t;
   using T_IntType = int32_t;
+#ifdef SIM_PTR_AS_POINTER
+  // the representation has a C++ pointer type (as in the bundled noop/dylib plug-ins) but is NOT the host address:
+  // it still carries the offset into the region
+  using T_PointerType = void*;
+  static_assert(sizeof(SIM_PTR_T) == sizeof(void*));
+  static inline T_PointerType mkrep(uintptr_t v) { return reinterpret_cast<T_PointerType>(v); }
+  static inline uintptr_t repval(T_PointerType p) { return reinterpret_cast<uintptr_t>(p); }
+#else
   using T_PointerType = SIM_PTR_T;
+  static inline T_PointerType mkrep(uintptr_t v) { return static_cast<T_PointerType>(v); }
+  static inline uintptr_t repval(T_PointerType p) { return static_cast<uintptr_t>(p); }
+#endif
   using T_ShortType = int16_t;
 #ifndef SIM_NO_GRANT_DENY
   using can_grant_deny_access = void;
@@ -336,7 +351,7 @@ protected:
       // fails after it had reserved (and then gave back) its memory; like a real plug-in it does not
       // bother to reset what it remembers about that memory
       sim::g_fault.create_fail = 0;
-      sim::Region tmp = sim::region_obtain(cfg.size, cfg.mmu, cfg.guard_after, cfg.reuse);
+      sim::Region tmp = sim::region_obtain(cfg.size, cfg.mmu, cfg.guard_after, cfg.reuse, cfg.subpage_slot);
       rem_base = (uintptr_t)tmp.base;
       rem_size = tmp.size;
       sim::region_retire(tmp, cfg.reuse);
@@ -345,7 +360,7 @@ protected:
       sim::bev("backend create -> FAIL after reserving memory");
       return false;
     }
-    mem = sim::region_obtain(cfg.size, cfg.mmu, cfg.guard_after, cfg.reuse);
+    mem = sim::region_obtain(cfg.size, cfg.mmu, cfg.guard_after, cfg.reuse, cfg.subpage_slot);
     rem_base = (uintptr_t)mem.base;
     rem_size = mem.size;
     lib = lib_id;
@@ -387,13 +402,25 @@ protected:
 
   inline void impl_reset_sandbox() {}
 
+  // Null is RLBox's business (0 <-> nullptr before the plug-in is asked): what this plug-in answers for a null
+  // function pointer / index 0 is deliberately useless, so that a path that forgets the null case is visible.
+  static constexpr uintptr_t NULL_FN_POISON = 0x7ff1;
+  static inline void asked_for_null_fn()
+  {
+    if (sim::g_ctx)
+      sim::g_ctx->probe("backend_asked_to_translate_null_function_pointer");
+  }
   template<typename T>
   inline void* impl_get_unsandboxed_pointer(T_PointerType p) const
   {
     if constexpr (std::is_function_v<std::remove_pointer_t<T>>) {
-      return reinterpret_cast<void*>(static_cast<uintptr_t>(p));
+      if (repval(p) == 0) {
+        asked_for_null_fn();
+        return reinterpret_cast<void*>(NULL_FN_POISON);
+      }
+      return reinterpret_cast<void*>(repval(p));
     } else {
-      return mem.base + (p & (mem.size - 1));
+      return mem.base + (repval(p) & (mem.size - 1));
     }
   }
 
@@ -401,10 +428,13 @@ protected:
   inline T_PointerType impl_get_sandboxed_pointer(const void* p) const
   {
     if constexpr (std::is_function_v<std::remove_pointer_t<T>>) {
-      return static_cast<T_PointerType>(reinterpret_cast<uintptr_t>(p));
+      if (p == nullptr) {
+        asked_for_null_fn();
+        return mkrep(NULL_FN_POISON);
+      }
+      return mkrep(reinterpret_cast<uintptr_t>(p));
     } else {
-      return static_cast<T_PointerType>(reinterpret_cast<uintptr_t>(p) -
-                                        reinterpret_cast<uintptr_t>(mem.base));
+      return mkrep(reinterpret_cast<uintptr_t>(p) - reinterpret_cast<uintptr_t>(mem.base));
     }
   }
 
@@ -445,10 +475,13 @@ protected:
                                                           Finder finder)
   {
     if constexpr (std::is_function_v<std::remove_pointer_t<T>>) {
-      return reinterpret_cast<void*>(static_cast<uintptr_t>(p));
+      if (repval(p) == 0) {
+        asked_for_null_fn();
+        return reinterpret_cast<void*>(NULL_FN_POISON);
+      }
+      return reinterpret_cast<void*>(repval(p));
     } else {
-      return reinterpret_cast<void*>(base_from_example(example, finder) +
-                                     (p & (cfg.size - 1)));
+      return reinterpret_cast<void*>(base_from_example(example, finder) + (repval(p) & (cfg.size - 1)));
     }
   }
 
@@ -458,10 +491,13 @@ protected:
                                                                 Finder finder)
   {
     if constexpr (std::is_function_v<std::remove_pointer_t<T>>) {
-      return static_cast<T_PointerType>(reinterpret_cast<uintptr_t>(p));
+      if (p == nullptr) {
+        asked_for_null_fn();
+        return mkrep(NULL_FN_POISON);
+      }
+      return mkrep(reinterpret_cast<uintptr_t>(p));
     } else {
-      return static_cast<T_PointerType>(reinterpret_cast<uintptr_t>(p) -
-                                        base_from_example(example, finder));
+      return mkrep(reinterpret_cast<uintptr_t>(p) - base_from_example(example, finder));
     }
   }
 
@@ -474,7 +510,7 @@ protected:
       if (sim::g_ctx)
         sim::g_ctx->fired("F3_sbx_malloc_null");
       sim::bev("backend malloc(%zu) -> 0 (injected)", size);
-      return 0;
+      return mkrep(0);
     }
     if (sim::g_fault.malloc_straddle > 0) {
       sim::g_fault.malloc_straddle--;
@@ -482,7 +518,7 @@ protected:
         sim::g_ctx->fired("F4_sbx_malloc_straddle");
       uint32_t off = (uint32_t)(mem.size - 4);
       sim::bev("backend malloc(%zu) -> %u (straddling, injected)", size, off);
-      return off;
+      return mkrep(off);
     }
     size_t need = (size + 7) & ~(size_t)7;
     if (need == 0)
@@ -497,19 +533,19 @@ protected:
       sim::bev("backend malloc(%zu) -> 0 (full)", size);
       if (sim::g_ctx)
         sim::g_ctx->probe("sbx_heap_full");
-      return 0;
+      return mkrep(0);
     }
     used[cur] = (uint32_t)need;
     sim::bev("backend malloc(%zu) -> %u", size, cur);
-    return cur;
+    return mkrep(cur);
   }
 
   inline void impl_free_in_sandbox(T_PointerType p)
   {
     SIM_YIELD("impl_free");
-    auto it = used.find((uint32_t)p);
-    sim::bev("backend free(%llu)%s", (unsigned long long)p, it == used.end() ? " UNKNOWN" : "");
-    last_free_rep = (uint32_t)p;
+    auto it = used.find((uint32_t)repval(p));
+    sim::bev("backend free(%llu)%s", (unsigned long long)repval(p), it == used.end() ? " UNKNOWN" : "");
+    last_free_rep = (uint32_t)repval(p);
     n_frees++;
     if (it != used.end())
       used.erase(it);
@@ -611,14 +647,14 @@ protected:
       if (table[i].kind == 0) {
         table[i] = Entry{ callback, 2, key, &sim::sigtag<T_Ret(T_Args...)>::c };
         sim::bev("backend register inst=%d -> entry %zu", inst_id, i);
-        return (T_PointerType)i;
+        return mkrep(i);
       }
     }
     sim::bev("backend register inst=%d -> REFUSED (table full)", inst_id);
     if (sim::g_ctx)
       sim::g_ctx->fired("F7_slot_table_full");
     detail::dynamic_check(false, "sim backend: no free callback entry");
-    return 0;
+    return mkrep(0);
   }
 
   static inline std::pair<rlbox_sim_sandbox*, void*> impl_get_executed_callback_sandbox_and_key()
@@ -653,13 +689,13 @@ protected:
       sim::g_fault.grant_refuse--;
       if (sim::g_ctx)
         sim::g_ctx->fired("F8_grant_refused");
-      sim::bev("backend grant -> refused");
-      return nullptr;
+      sim::bev("backend grant -> refused%s", sim::g_fault.refuse_echoes_pointer ? " (caller's pointer handed back)" : "");
+      return sim::g_fault.refuse_echoes_pointer ? src : nullptr;
     }
     size_t bytes = num * sizeof(T);
     if (bytes == 0 || bytes > mem.size)
       return nullptr;
-    T_PointerType off = impl_malloc_in_sandbox(bytes);
+    uintptr_t off = repval(impl_malloc_in_sandbox(bytes));
     if (off == 0 || (uint64_t)off + bytes > mem.size)
       return nullptr;
     std::memcpy(mem.gbase + off, (const void*)src, bytes);
@@ -677,8 +713,8 @@ protected:
       sim::g_fault.grant_refuse--;
       if (sim::g_ctx)
         sim::g_ctx->fired("F8_deny_refused");
-      sim::bev("backend deny -> refused");
-      return nullptr;
+      sim::bev("backend deny -> refused%s", sim::g_fault.refuse_echoes_pointer ? " (caller's pointer handed back)" : "");
+      return sim::g_fault.refuse_echoes_pointer ? src : nullptr;
     }
     if (cfg.deny_in_place) {
       (void)num;
